@@ -148,6 +148,8 @@ func execPtyCase(c *runCtx, pc *ptyCase, cases lineW) error {
 				if err != nil && k <= 0 {
 					return
 				}
+			} else if n > 0 && fds[0].Revents&(unix.POLLHUP|unix.POLLERR|unix.POLLNVAL) != 0 {
+				return // the slave side is closed and the buffer is empty
 			}
 		}
 	}()
@@ -197,7 +199,13 @@ func execPtyCase(c *runCtx, pc *ptyCase, cases lineW) error {
 			fmt.Fprintf(p, "<T%02d>\n", t)
 		}
 		if pc.pop && t == 1 && len(bars) > 1 {
-			bars[0].SetCurrent(100)
+			// one bar finishes and is popped out: the top one, or (odd cases) the bottom one, which has to travel to the top
+			// — past the terminal's height when the frame is taller than the terminal
+			if pc.k%2 == 1 {
+				bars[len(bars)-1].SetCurrent(100)
+			} else {
+				bars[0].SetCurrent(100)
+			}
 		}
 		if !doTick(fmt.Sprintf("tick %d", t)) {
 			cases.WriteString("HANG tick\nend\n")
@@ -221,9 +229,15 @@ func execPtyCase(c *runCtx, pc *ptyCase, cases lineW) error {
 		}
 	}()
 	mark("wait")
-	close(stopRead)
-	<-readDone
+	// Wait has returned: everything has been written.  Close the slave side and let the reader drain the terminal's buffer
+	// until the master reports the hang-up, however slow the machine is
 	slave.Close()
+	select {
+	case <-readDone:
+	case <-time.After(5 * time.Second):
+		close(stopRead)
+		<-readDone
+	}
 	mu.Lock()
 	data := append([]byte(nil), got...)
 	mu.Unlock()
